@@ -4,6 +4,17 @@ use crate::tr::*;
 use crate::types::*;
 use syn::*;
 
+/// `&array` where a slice is expected (`&[T; N]` -> `&[T]`): the list of the N components
+pub fn coerce_array_to_slice(v: Val, want: &Ty) -> Val {
+    if let (Ty::Slice(e), Ty::Tuple(ts)) = (want, &v.ty) {
+        if ts.iter().all(|t| join(t, e).is_ok()) {
+            let names: Vec<String> = (0..ts.len()).map(|i| format!("e{}_", i)).collect();
+            return Val { s: format!("(let '({}) := {} in [{}])", names.join(", "), v.s, names.join("; ")), ty: want.clone() };
+        }
+    }
+    v
+}
+
 impl<'a> Tr<'a> {
     /// translate the arguments of a call to a configured function and build the application
     pub fn apply_fn(&mut self, f: &FnInfo, cg: &[Val], recv: Option<&Val>, args: &[&Expr], env: &Env, at: &Expr) -> R<Val> {
@@ -17,12 +28,22 @@ impl<'a> Tr<'a> {
     /// a method of the same impl header as the function being translated: its abstracted `R::ITEM` parameters are the
     /// caller's own parameters of the same names
     pub fn inherited_assoc(&self, f: &FnInfo, env: &Env) -> Option<Vec<String>> {
-        if f.assoc_params.is_empty() || !f.generic_names.is_empty() || f.self_ty.is_none() || f.self_ty != self.self_ty {
+        if f.assoc_params.is_empty() || f.self_ty.is_none() {
             return None;
         }
         let me = self.t.fns.iter().find(|g| g.coq == self.fn_coq)?;
-        if me.impl_args != f.impl_args {
-            return None;
+        if f.self_ty == self.self_ty && f.generic_names.is_empty() {
+            if me.impl_args != f.impl_args {
+                return None;
+            }
+        } else {
+            // a method of another impl: its abstracted items are parameters of the caller under the same keys (add_fn
+            // made sure of it, and that the caller has no generic parameter of such a name)
+            for (k, _) in f.assoc_params.iter() {
+                if !me.assoc_params.iter().any(|(k2, _)| k2 == k) {
+                    return None;
+                }
+            }
         }
         let mut out = vec![];
         for (k, t) in f.assoc_params.iter() {
@@ -39,6 +60,10 @@ impl<'a> Tr<'a> {
             return Err(unsupported(at, &format!("call of `{}` (`&mut` parameters / fuel) in a position where its effects cannot be sequenced", f.key)));
         }
         let inherited = self.inherited_assoc(f, env);
+        if self.turbofish_types.as_ref().map(|v| v.is_empty()).unwrap_or(false) {
+            // no turbofish was written
+            self.turbofish_types = None;
+        }
         if !f.assoc_params.is_empty() && self.turbofish_types.is_none() && inherited.is_none() {
             return Err(unsupported(at, &format!("call of `{}`, whose generic parameters' associated constants are abstracted as parameters", f.key)));
         }
@@ -85,6 +110,7 @@ impl<'a> Tr<'a> {
         ptys.extend(f.params.iter().map(|p| p.1.clone()));
         for (x, pt) in args.iter().zip(ptys.iter()) {
             let v = self.pure(x, env, Some(pt))?;
+            let v = coerce_array_to_slice(v, pt);
             join(&v.ty, pt).map_err(|m| unsupported(at, &format!("argument of `{}`: {}", f.key, m)))?;
             a.push(v.s);
         }
@@ -415,7 +441,13 @@ impl<'a> Tr<'a> {
                 let fs = self.find_fns(Some(&n), &name);
                 // a value of an instantiated type parameter: only the methods of the parameter's trait bounds
                 let fs: Vec<FnInfo> = match self.inst_traits.get(&n) {
-                    Some(bounds) => fs.into_iter().filter(|f| f.trait_name.as_deref().map(|t| bounds.contains(t.split('<').next().unwrap())).unwrap_or(false)).collect(),
+                    // (the bounds' supertraits and blanket impls are not known here: any trait method, never an inherent one;
+                    //  a method of a bound itself wins)
+                    Some(bounds) => {
+                        let traits: Vec<FnInfo> = fs.into_iter().filter(|f| f.trait_name.is_some()).collect();
+                        let direct: Vec<FnInfo> = traits.iter().filter(|f| f.trait_name.as_deref().map(|t| bounds.contains(t.split('<').next().unwrap())).unwrap_or(false)).cloned().collect();
+                        if direct.is_empty() { traits } else { direct }
+                    }
                     None => fs,
                 };
                 let via_bound = self.inst_traits.contains_key(&n);
@@ -466,7 +498,7 @@ impl<'a> Tr<'a> {
                 }
                 Err(unsupported(at, &format!("method `{}::{}`: {} (add it to functions.txt before its caller)", n, name, if fs.is_empty() { "not a configured function" } else { "ambiguous" })))
             }
-            Ty::Param(g) if self.generic_tys.contains(&g) => {
+            Ty::Param(g) if self.generic_tys.contains(g.split("::").next().unwrap()) || env.get(&format!("{}::{}", g, name)).is_some() => {
                 // a method of a generic type parameter's bound: a function parameter of the translated definition
                 let key = format!("{}::{}", g, name);
                 match env.get(&key) {
@@ -523,9 +555,55 @@ impl<'a> Tr<'a> {
                     Ok(Val { s: format!("(Casts.slice_get {} {})", recv.s, i.s), ty: Ty::Option(elem.clone()) })
                 }
                 ("len", 0) => Ok(Val { s: format!("(Z.of_nat (length {}))", recv.s), ty: Ty::int(IntTy::Usize) }),
+                ("last", 0) => Ok(Val { s: format!("(Casts.slice_last {})", recv.s), ty: Ty::Option(elem.clone()) }),
+                // `str.chars()`: the iterator is the part of the string not yet passed
+                ("chars", 0) if *elem == Ty::Int(Some(IntTy::U32)) => Ok(Val { s: recv.s.clone(), ty: Ty::Iter(elem.clone()) }),
+                // consumers of a list of items (the value of an `impl Iterator` function, `slice.iter()`)
+                ("iter", 0) | ("into_iter", 0) | ("copied", 0) | ("cloned", 0) => Ok(recv),
+                ("any", 1) | ("all", 1) => {
+                    let (p, b) = self.closure1(args[0], &elem, env, Some(&Ty::Bool))?;
+                    if b.ty != Ty::Bool {
+                        return Err(unsupported(at, "closure that does not return bool"));
+                    }
+                    Ok(Val { s: format!("({} (fun x_ : {} => let '{} := x_ in {}) {})", if name == "any" { "existsb" } else { "forallb" }, self.t.coq_ty(&elem)?, p, b.s, recv.s), ty: Ty::Bool })
+                }
+                ("enumerate", 0) => Ok(Val { s: format!("(Casts.enumerate {})", recv.s), ty: Ty::Slice(Box::new(Ty::Tuple(vec![Ty::int(IntTy::Usize), (*elem).clone()]))) }),
+                ("find", 1) => {
+                    let (p, b) = self.closure1(args[0], &elem, env, Some(&Ty::Bool))?;
+                    if b.ty != Ty::Bool {
+                        return Err(unsupported(at, "closure that does not return bool"));
+                    }
+                    Ok(Val { s: format!("(List.find (fun x_ : {} => let '{} := x_ in {}) {})", self.t.coq_ty(&elem)?, p, b.s, recv.s), ty: Ty::Option(elem.clone()) })
+                }
+                ("count", 0) => Ok(Val { s: format!("(Z.of_nat (length {}))", recv.s), ty: Ty::int(IntTy::Usize) }),
+                ("filter_map", 1) => {
+                    let (p, b) = self.closure1(args[0], &elem, env, None)?;
+                    let bt = match &b.ty {
+                        Ty::Option(t) => (**t).clone(),
+                        t => return Err(unsupported(at, &format!("`filter_map` closure returning {} (not Option)", t.show()))),
+                    };
+                    Ok(Val { s: format!("(flat_map (fun x_ : {} => let '{} := x_ in match {} with Some y_ => [y_] | None => [] end) {})", self.t.coq_ty(&elem)?, p, b.s, recv.s), ty: Ty::Slice(Box::new(bt)) })
+                }
+                // `str::split(char)` / `strip_suffix(char)` on the list of chars
+                ("split", 1) if *elem == Ty::Int(Some(IntTy::U32)) => {
+                    let c = self.pure(args[0], env, Some(&elem))?;
+                    join(&c.ty, &elem).map_err(|m| unsupported(at, &format!("`split` with a pattern that is not a char: {}", m)))?;
+                    Ok(Val { s: format!("(Casts.split_char {} {})", c.s, recv.s), ty: Ty::Slice(Box::new(recv.ty.clone())) })
+                }
+                ("strip_suffix", 1) if *elem == Ty::Int(Some(IntTy::U32)) => {
+                    let c = self.pure(args[0], env, Some(&elem))?;
+                    join(&c.ty, &elem).map_err(|m| unsupported(at, &format!("`strip_suffix` with a pattern that is not a char: {}", m)))?;
+                    Ok(Val { s: format!("(Casts.strip_suffix_char {} {})", c.s, recv.s), ty: Ty::Option(Box::new(recv.ty.clone())) })
+                }
+                ("first", 0) => Ok(Val { s: format!("(List.hd_error {})", recv.s), ty: Ty::Option(elem.clone()) }),
+                ("windows", 1) if matches!(strip_parens(args[0]), Expr::Lit(ExprLit { lit: Lit::Int(i), .. }) if i.base10_digits() == "3") => {
+                    // `s.windows(3)`: the iterator is the part of the slice not yet passed
+                    Ok(Val { s: recv.s.clone(), ty: Ty::Windows(elem.clone()) })
+                }
                 ("is_empty", 0) => Ok(Val { s: format!("(Z.of_nat (length {}) =? 0)", recv.s), ty: Ty::Bool }),
                 _ => Err(unsupported(at, &format!("slice method `{}` (only get(index), len, is_empty and the `get_mut(i).ok_or(e).map(|b| *b = v)` idiom are translated)", name))),
             },
+            Ty::Iter(_) if name == "count" && args.is_empty() => Ok(Val { s: format!("(Z.of_nat (length {}))", recv.s), ty: Ty::int(IntTy::Usize) }),
             Ty::Extern(n) => {
                 let e = self.t.externs.get(&n).cloned().ok_or_else(|| unsupported(at, "unknown extern type"))?;
                 let ty_of = |t: &Ty| if *t == Ty::Extern("Self".into()) { Ty::Extern(n.clone()) } else { t.clone() };
@@ -799,6 +877,12 @@ impl<'a> Tr<'a> {
                 Ok(Val { s: format!("(match {r} with | Some {p} => if {b} then {k} else None | None => None end)", r = recv.s, p = p, b = b.s, k = keep), ty: recv.ty.clone() })
             }
             ("copied", 0) | ("cloned", 0) | ("clone", 0) => Ok(recv),
+            ("unwrap", 0) if !self.fuel => {
+                // in a function that is fuelled anyway (result in `option`) unwrap on None gives None: try that
+                self.needs_fuel = true;
+                self.unwrap_retry = true;
+                Err(unsupported(at, "`unwrap()` (panics; only translated in a fuelled function, where None = no value)"))
+            }
             _ => Err(unsupported(at, &format!("Option method `{}` (not in the whitelist; unwrap/expect panic and are not translated)", name))),
         }
     }
